@@ -59,6 +59,7 @@ func valid(t string) bool {
 // Op is one rule application.
 type Op struct {
 	Kind string `json:"kind"` // create save rename delete run
+	Ext  int    `json:"ext,omitempty"` // create: 1 = the name is given with ".yml", 2 = with ".yaml" (the store maps both to <name>.yaml)
 	Name int    `json:"name"`
 	To   int    `json:"to,omitempty"`
 	Text int    `json:"text,omitempty"`
@@ -82,6 +83,7 @@ func gen(t *rapid.T) Case {
 			Name: rapid.IntRange(0, len(names)-1).Draw(t, "name"),
 			To:   rapid.IntRange(0, len(names)-1).Draw(t, "to"),
 			Text: rapid.IntRange(0, len(texts)-1).Draw(t, "text"),
+			Ext:  rapid.SampledFrom([]int{0, 0, 0, 1, 2}).Draw(t, "ext"),
 		})
 	}
 	return c
@@ -182,10 +184,12 @@ func run(c Case) (string, map[string]bool) {
 		switch o.Kind {
 		case "create":
 			_, existed := w.defs[n]
-			_, err := h.Cli.CreateDAG(n)
+			given := n + []string{"", ".yml", ".yaml"}[o.Ext%3]
+			_, err := h.Cli.CreateDAG(given)
+			desc += " as " + given
 			if existed {
 				if err == nil {
-					return fmt.Sprintf("create of %q succeeded although a DAG with that name exists", n), labels
+					return fmt.Sprintf("create of %q (given as %q) succeeded although a DAG with that name exists", n, given), labels
 				}
 				labels["create-refused"] = true
 			} else {
